@@ -71,9 +71,8 @@ void AttributedItem::dumpString(bool prependFieldSeparator, const string& str, o
     *output << FIELD_SEPARATOR;
   }
   string::size_type pos = str.find_first_of(TEXT_SEPARATOR);
-  if (str.find_first_of(FIELD_SEPARATOR) == string::npos
-  && (pos == string::npos || (pos > 0 && pos < str.length() - 1))) {
-    *output << str;
+  if (str.find_first_of(FIELD_SEPARATOR) == string::npos && pos == string::npos) {
+    *output << str;  // (a text with a text separator anywhere is quoted: adjacent ones in the middle would start a quoted part)
   } else if (pos == string::npos) {
     *output << TEXT_SEPARATOR << str << TEXT_SEPARATOR;
   } else {
